@@ -4,7 +4,7 @@ STRICT = {"R-LIN-ANON", "R-LIN-VAR", "R-LIN-PATH", "R-EXPR-STORE", "R-REC-FWD"}
 
 import ast
 
-from .. import pm, compq, placement, pyq
+from .. import boolfn, pm, compq, placement, pyq
 from ..pysrc import dotted, fold, norm, flat
 
 R, SC = compq.RM, compq.SC
@@ -114,10 +114,18 @@ def check(ctx, src):
               "setx/setv targets leak out through nonlocal (inside a function) or global (module level), only when the scope exposes assignments", R, f.lineno, detail="Nonlocal if inside function else Global")
     en = comp.sc.func("ScopeGen.__enter__")
     ctx.require(en is not None, "ScopeGen.__enter__ not found")
-    ctx.check("isinstance(enclosing, ScopeGlobal) or is_function_scope(enclosing)" in flat(en), "COMP-LEAK", f"{SC}|ScopeGen.__enter__|exposing", "assignments are exposed only when the nearest Python scope is the module or a function (not a class)", SC, en.lineno, detail="module or function")
+    # `self.exposing_assignments = True` is reached exactly when the nearest Python scope is the module or a function
+    setexp = [n for n in ast.walk(en) if isinstance(n, ast.Assign) and isinstance(n.targets[0], ast.Attribute) and n.targets[0].attr == "exposing_assignments"
+              and isinstance(n.value, ast.Constant) and n.value.value is True]
+    v, why = boolfn.decide(setexp, en, boolfn.Atoms(G="isinstance(__, ScopeGlobal)", F="is_function_scope(__)"), lambda e: e["G"] or e["F"], must_depend_on=("G", "F"))
+    ctx.decide("COMP-LEAK", f"{SC}|ScopeGen.__enter__|exposing", v, f"assignments are exposed only when the nearest Python scope is the module or a function, not a class ({why})", SC, en.lineno,
+               witness="(defclass C [] (lfor x xs (setx y x))) declares y nonlocal/global inside a class body", detail="module or function")
     asg = comp.sc.func("ScopeGen.assign")
     ctx.require(asg is not None, "ScopeGen.assign not found")
-    ctx.check("if node.name not in self.defined: self.assignments.append(node)" in [norm(s) for s in asg.body], "COMP-LEAK", f"{SC}|ScopeGen.assign|record", "assignments inside a comprehension are not recorded for leaking", SC, asg.lineno, detail="assignments.append")
+    rec = [n for n in ast.walk(asg) if isinstance(n, ast.Call) and isinstance(n.func, ast.Attribute) and n.func.attr == "append" and dotted(n.func.value) == "self.assignments"]
+    v, why = boolfn.decide(rec, asg, boolfn.Atoms(D="__.name in self.defined"), lambda e: not e["D"], must_depend_on=("D",))
+    ctx.decide("COMP-LEAK", f"{SC}|ScopeGen.assign|record", v, f"an assignment inside a comprehension is recorded for leaking exactly when the name is not already defined in the scope ({why})", SC, asg.lineno,
+               witness="(lfor x xs (setx y x)) does not bind y outside", detail="assignments.append unless defined")
     # --- else
     o = pyq.contains(g, lambda n: isinstance(n, ast.Assign) and norm(n) == "orelse = orel and orel.pop().stmts")
     arm = o._parent if o is not None else None
